@@ -516,6 +516,7 @@ def bounded(ctx):
         {'op': 'add', 'rule': 4, 'methods': ['GET'], 'name': None, 'overwrite': False, 'choice': []},
         {'op': 'add', 'rule': 0, 'methods': ['GET'], 'name': None, 'overwrite': False, 'choice': [], 'mspell': 1},       # the verb in lower case
         {'op': 'add', 'rule': 5, 'methods': ['GET'], 'name': None, 'overwrite': True, 'choice': []},                     # overwrite through a rule that renames the wildcard
+        {'op': 'add', 'rule': 0, 'methods': ['POST', 'GET'], 'name': None, 'overwrite': False, 'choice': []},            # refused as a whole when GET is taken (POST must not stay behind)
         {'op': 'remove', 'rule': 0, 'choice': []},
         {'op': 'remove', 'rule': 2, 'choice': []},
         {'op': 'remove_name', 'name': 'n1'},
